@@ -43,7 +43,18 @@ def gen_case(r):
         else:
             prog.append(("validate", r.below(len(Ss)), r.below(2)))
     prog.append(("validate", r.below(len(Ss)), 0))
-    return Ss, Ts, roots, [d, G.hostile_doc(r, 3)], prog
+    # how each root is handed to add_schema: a DataPath, a DataPath bound to the first document
+    # (source_data=), or - for a single string key - the bare string
+    styles = []
+    for rp in roots:
+        c = r.pct()
+        if c < 12:
+            styles.append("bound")
+        elif c < 30 and len(rp.parts) == 1 and isinstance(rp.parts[0], Prim) and isinstance(rp.parts[0].v, str):
+            styles.append("str")
+        else:
+            styles.append("path")
+    return Ss, Ts, roots, [d, G.hostile_doc(r, 3)], prog, styles
 
 
 def summ(vd):
@@ -64,11 +75,11 @@ def drive(gen, prog):
 
 
 def body(case):
-    Ss, Ts, roots, docs, prog = case
-    return drive(history(Ss, Ts, roots, docs), prog)
+    Ss, Ts, roots, docs, prog, styles = case
+    return drive(history(Ss, Ts, roots, docs, styles), prog)
 
 
-def history(Ss, Ts, roots, docs):
+def history(Ss, Ts, roots, docs, styles=None):
     """Interpreter of a C18 history as a coroutine: every `op = yield` receives the next
     operation (None = end); all invariants are checked after every step.  Driven by the
     program-as-data test and by the Hypothesis state machine."""
@@ -78,7 +89,15 @@ def history(Ss, Ts, roots, docs):
     try:
         S = [build.build_schema(s) for s in Ss]
         T = [build.build_schema(t) for t in Ts]
-        Rts = [build.build_path(rp) for rp in roots]
+        Rts = []
+        for i, rp in enumerate(roots):
+            st_ = (styles or [])[i] if styles and i < len(styles) else "path"
+            if st_ == "bound":
+                Rts.append(build.build_path(rp, source_data=docs[0]))
+            elif st_ == "str":
+                Rts.append(rp.parts[0].v)
+            else:
+                Rts.append(build.build_path(rp))
     except Exception as e:
         out.exc("build", e)
         return out
@@ -236,8 +255,10 @@ def machine(seed, n, record):
 
         @initialize(t=st.binary(min_size=3072, max_size=3072))
         def setup(self, t):
-            self.static = gen_case(G.R(t))[:4]
-            self.g = history(*self.static)
+            gc = gen_case(G.R(t))
+            self.static = gc[:4]
+            self.styles = gc[5]
+            self.g = history(*self.static, self.styles)
             try:
                 next(self.g)
             except StopIteration as e:
@@ -272,7 +293,7 @@ def machine(seed, n, record):
                 except StopIteration as e:
                     self.done = e.value
             if self.done is not None:
-                record(tuple(self.static) + (list(self.prog),), self.done)
+                record(tuple(self.static) + (list(self.prog), self.styles), self.done)
 
     run_state_machine_as_test(hy.seed(seed)(M), settings=hy.settings(hyp_settings(n), stateful_step_count=12))
 
